@@ -155,8 +155,8 @@ def _mibdump(akind, bkind, imp, req_b, fmt, dry, nowrite, ignore, nodeps, pycbad
         # every module that gets as far as the writer fails there (and is removed again): reported failed, not on disk
         gate_open = (not bad) or ignore
         for mod in closure:
-            if mod not in bad and gate_open and (mod == 'A-MIB' or req_b or not nodeps):
-                bad[mod] = 'failed'
+            if mod not in bad and gate_open and (mod == 'A-MIB' or mod == 'C-MIB' or req_b or not nodeps):
+                bad[mod] = 'failed'                 # (the borrowed copy goes through the same writer and fails there too)
         if files:
             return False
     # (1) exit status: 0 only if no requested or dependent module is missing or failed
@@ -186,10 +186,14 @@ def _mibdump(akind, bkind, imp, req_b, fmt, dry, nowrite, ignore, nodeps, pycbad
         ext_ = ('.json', '.py', '')[fmt]
         on_disk = ('C-MIB' + ext_) in files
         listed = 'C-MIB' in rep['borrowed']
-        gate_closed = bool(bad) and not ignore
-        if gate_closed and (listed or on_disk):
+        others_bad = [m_ for m_ in bad if m_ != 'C-MIB']
+        gate_closed = bool(others_bad) and not ignore
+        if 'C-MIB' in bad:
+            if listed or on_disk:
+                return False                        # its own write failed: neither reported borrowed nor on disk
+        elif gate_closed and (listed or on_disk):
             return False
-        if not gate_closed and not listed:
+        elif not gate_closed and not listed:
             return False
         if on_disk and contents['C-MIB' + ext_].replace('\r', '') .find(BORROWED_TEXT[fmt].strip()) < 0:
             return False
